@@ -71,7 +71,7 @@ PROPS["C06"] = {
         "7": "gRPC probe: service whose earlier claimant released it stays unroutable although exactly one live target still lists it (F17)",
         "8": "gRPC probe: contested service not routed to the earlier, still standing claimant"}},
     "rule": "random histories of 1-25 Watch/UpdateDesc/Close ops over 3 targets; descriptions draw services/methods/bindings from shared pools (so services move between targets, bindings are added, kept and dropped; 12% invalid templates; 25% methods without bindings); after every op 42 HTTP probes and 4 gRPC probes on both routers; non-trivial = history with >=1 applied update and >=1 close",
-    "level_text": "Coq theorems by induction over ALL histories with a representation invariant: the pattern table holds, per HTTP method, exactly one entry per live target with routes for it, carrying that target's latest description; a probe matched by at most one live target returns the first matching binding of that latest description; service table likewise for uncontested services; Watch succeeds iff not watched. Tied to the code by running histories on the real routers and comparing every probe.",
+    "level_text": "Coq theorems by induction over ALL histories with a representation invariant: the pattern table holds, per HTTP method, exactly one entry per live target with routes for it, carrying that target's latest description; a probe matched by at most one live target returns the first matching binding of that latest description; the service table (updateRoutes / removeTarget / handOver) has its own invariant for ALL histories: sound (a routed service points at a live target's latest description, at a position listing it), complete (a service listed by any live target is routed - also after its owner closed or dropped it), claim lists = ownership relation, recorded listings = latest descriptions; corollaries: sole lister is routed, unlisted service is not; Watch succeeds iff not watched. Tied to the code by running histories on the real routers and comparing every probe.",
     "level_note": "Trusted: Coq kernel, extraction, modelrun, Go harness. The template matcher is a parameter of the table theorems; the correspondence instantiates it with literal templates. sync.Map / atomic pointer atomicity is Go's.",
     "design_ref": "DESIGN.md §3 C06",
     "assumptions": ["contested routes: only 'the earlier standing claimant keeps it' is demanded (C14); otherwise any claimant is accepted"],
@@ -88,7 +88,7 @@ PROPS["C14"] = {
         "5": "wrong error class for unknown service / malformed name / non-POST"},
       "claims": PROPS["C06"]["reasons"]["histories"]},
     "rule": "names: strings assembled from service names, method names, empty parts, extra slashes, dots, %-escapes, non-ASCII, with/without leading slash; fed as grpc.Method (RouteGRPC), as HTTP requests parsed by http.ReadRequest (RouteHTTP), through GRPCWebBridge and (2%) through GRPCProxy over bufconn with a real gRPC client; after a random claim history of 1-6 ops over 3 targets and 4 overlapping service names; non-trivial = name contains '/' and >=1 update. claims: the C06 histories (owner/claimant reasons)",
-    "level_text": "Coq theorems: parse law for every service name without '/' and EVERY method string (verbatim, slashes and escapes included), with or without the leading slash; names without a separator are rejected; the RPC name handed on is '/'+service+'/'+method; routing result is the service table's owner. Ownership after claim histories is tied to the code by the history correspondence (C06 model) and the executable 'earlier standing claimant' property.",
+    "level_text": "Coq theorems: parse law for every service name without '/' and EVERY method string (verbatim, slashes and escapes included), with or without the leading slash; names without a separator are rejected; the RPC name handed on is '/'+service+'/'+method; routing result is the service table's owner; over ALL histories the earlier claimant keeps a service whatever other targets do (update with any listing, removal), and the owner keeps it across its own updates while it lists it (route refreshed to the new description). Tied to the code by the history correspondence (C06 model) and the executable 'earlier standing claimant' property.",
     "level_note": "Trusted: Coq kernel, extraction, modelrun, Go harness; net/http URL parsing (the model receives URL.Path as net/http produced it); grpc-go's own method-name validation on the proxy path.",
     "design_ref": "DESIGN.md §3 C14",
     "assumptions": ["for services claimed by several live targets where the earlier claimant has left, any remaining claimant is accepted"],
@@ -137,7 +137,7 @@ PROPS["C01"] = {
     "parts": [{"name": "forward", "pkg": "c01", "chk": "chk_fwd"}],
     "reasons": {"forward": FWD_REASONS},
     "rule": "random call scripts (4 RPC kinds; 0-3 client messages then EOF/error/silence; 0-3 target messages with causal guards then EOF/status/silence; rare send/open failures; 45% a context event) each run 3x on the real ProxyForwarder / grpcbridge.Forwarder with scripted fake streams under seeded Gosched/sleep perturbation; fakes keep the proto.Message pointers and compare contents at the end; non-trivial = script with client items and target items",
-    "level_text": "Coq theorems over ALL scripts and ALL schedules of the forwarder LTS (induction on reachability, one case per atomic step): requests/responses seen are prefixes of what was sent, in order; non-streaming directions carry at most one message. Tied to the code by running the real Forward on scripted fakes and checking that the observed outcome is one the model can produce (exhaustive exploration of the model, used only as validation) and satisfies the executable property.",
+    "level_text": "Coq theorems over ALL scripts and ALL schedules of the forwarder LTS (induction on reachability, one case per atomic step): requests/responses seen are prefixes of what was sent, in order; non-streaming directions carry at most one message; and nothing is dropped: for every fault-free script (no context event, no adapter failure, conformant target) and every schedule, a returned call reports exactly the target's final status, has delivered ALL response messages, and - when the target ended after the whole request stream - all requests and the half-close. Tied to the code by running the real Forward on scripted fakes and checking that the observed outcome is one the model can produce (exhaustive exploration of the model, used only as validation) and satisfies the executable property.",
     "level_note": "Trusted: Coq kernel, extraction, modelrun, Go harness fakes. Modelled, not verified: Go channel/goroutine semantics at the granularity of DESIGN appendix A.1; grpc-go behind AdaptedClientStream; byte identity of re-marshalled messages is protobuf-go's.",
     "design_ref": "DESIGN.md §3 C01, appendix A.1",
     "assumptions": ["completeness on success / final-status theorems for fault-free scripts are stated as the executable property (reasons 6, 7) and checked on every run; their Coq proof is not finished (draft kept in work/wip)"],
